@@ -19,11 +19,11 @@ PROPERTY = 'C06'
 LEVEL = 'model_checking'
 
 
-def check_term(term, part):
+def check_term(term, part, configs=None):
     doc = docalg.build(term)
     ls = docalg.layout_set(term)
     interesting = False
-    for (width, frac, _r) in docalg.config_lattice(term):
+    for (width, frac, _r) in (configs if configs is not None else docalg.config_lattice(term)):
         rw = docalg.ribbon_width(width, frac)
         for sname, layout in D.strategies():
             part.n += 1
@@ -67,6 +67,12 @@ def check_term(term, part):
 
 
 def work(item):
+    if item[0] == 'scaled':
+        part = core.Part()
+        for term, configs in D.scaled_documents()[item[1]:item[2]]:
+            check_term(term, part, configs=configs)
+            part.c['scaled_terms'] += 1
+        return part
     n, lo, hi = item
     part = core.Part()
     a = D.alphabet()
